@@ -55,3 +55,23 @@ func (t *QUIC) VerifCachedQuic(peer *protocol.Node) *quic.Conn {
 // VerifReapPeer runs reapPeer(q, peer), as reaper() does for a candidate it collected (accessor for the
 // unexported method; reaper() itself is driven by timers of tens of seconds).
 func (t *QUIC) VerifReapPeer(q *quic.Conn, peer *protocol.Node) { t.reapPeer(q, peer) }
+
+// VerifNegotiate runs reuseConnection for the connection q over the negotiation stream s and then does what
+// handleOutgoing / handleIncoming do with the result: a connection that comes back as new gets its per-connection
+// goroutines (handlePeer, including the close-watcher that reaps it). Accessor for the unexported methods: the
+// harness supplies the stream (a relayed one), so that it controls when the cache-status reports are delivered.
+// Returns the connection reuseConnection returned, whether it was reused, and its error.
+func (t *QUIC) VerifNegotiate(ctx context.Context, q *quic.Conn, s *quic.Stream, outgoing bool) (*quic.Conn, bool, error) {
+	dir := directionIncoming
+	if outgoing {
+		dir = directionOutgoing
+	}
+	c, reused, err := t.reuseConnection(ctx, q, s, dir)
+	if err != nil {
+		return nil, false, err
+	}
+	if !reused {
+		t.handlePeer(ctx, c.quic, c.peer, dir)
+	}
+	return c.quic, reused, nil
+}
